@@ -136,6 +136,23 @@ def gen(ctx):
             out.append((form, f"({A}) && ({B})", doc, [A, B]))
         else:
             out.append((form, f"({A}) || ({B})", doc, [A, B]))
+    # the truth table, exhaustively over one value of every kind and emptiness (including strings that are only white space, -0.0, [null], {"a": null})
+    tv = ["n", "t", "f", "u0", G.f64_bits(-0.0), "u7", G.enc_str(""), G.enc_str(" "), G.enc_str("\t\n"), G.enc_str("\u00a0"), G.enc_str("a"), G.enc_str("false"),
+          "[ ]", "[ n ]", "[ f ]", "{ }", "{ s61 n }"]
+    for x in tv:
+        d1 = "{ s61 " + x + " }"
+        out.append(("not", "!(a)", d1, ["a"]))
+        out.append(("filter", "(@)[?a].a", "[ " + d1 + " { s61 u1 } ]", ["@", "a", "a"]))
+        for y in tv:
+            d2 = "{ s61 " + x + " s62 " + y + " }"
+            out.append(("and", "(a) && (b)", d2, ["a", "b"]))
+            out.append(("or", "(a) || (b)", d2, ["a", "b"]))
+    # a parenthesised projection is CLOSED: what follows applies to its result as a whole (composition), not per element
+    for _ in range(150 if ctx.tier == "quick" else 5000):
+        A = rng.choice(["a[*]", "a[]", "a[?b]", "b.*", "a[1:]", "a[*].a", "a[?@].b", "*", "a[*].a[]"])
+        R = rng.choice(["a", "b", "c", "length(@)", "[0]", "a[0]", "keys(@)", "type(@)", "*", "[*]"])
+        sep = "" if R.startswith("[") else "."
+        out.append(("pipe", "(%s)%s%s" % (A, sep, R), G.json_to_enc(G.table_doc(rng, 2)), [A, R]))
     # deep compositions (65 .. 300 levels; stack exhaustion — known finding F12 — starts beyond 1000): parts that work alone must compose
     for k in ([40, 66, 150] if ctx.tier == "quick" else [33, 40, 63, 64, 65, 66, 100, 129, 150, 257, 300, 600]):
         leaf = G.enc_str("leaf")
